@@ -51,6 +51,10 @@ impl SharedGroup {
             Strategy::Random => {
                 self.current_client_index = rand::thread_rng().gen_range(0..self.clients.len());
                 #[cfg(rumqtt_verif)]
+                if let Some(index) = crate::verif::pick(self.clients.len()) {
+                    self.current_client_index = index;
+                }
+                #[cfg(rumqtt_verif)]
                 crate::verif::record(format!("random {}", self.current_client_index));
             }
             Strategy::Sticky => {}
